@@ -25,7 +25,8 @@ STATED = {"deviation_from_baseline": 0.02, "gradient_zero_crossing": 0.08, "fit_
           "fit_line_polynomial": 0.35, "fit_constant_line": 0.40, "frechet_direct_path": 0.45}
 
 
-#: the piecewise polynomial fits represent the quadratic models (cone, pyramid: F ~ delta^2) exactly: the stated
+#: the piecewise polynomial fits represent the quadratic models (cone, pyramid: F ~ delta^2) almost exactly
+#: (delta^3 / (a delta^2 + b delta + c) -> delta^2 / b for the small a, c the parameter limits allow): the stated
 #: fraction for those is one percent of the curve length plus one sample (0.005 = one sample of the shortest grid
 #: curve is the worst case observed over the whole grid, long recordings included)
 STATED_EXACT = {(m, mk): 0.01 for m in ("fit_constant_polynomial", "fit_line_polynomial")
